@@ -143,6 +143,35 @@ macro_rules! perp_world {
                     self.atomic(|m, ps| ps[idx].ops(m).decrease(pr, size, None, withdraw, flags)?.execute())
                 }
 
+                /// random price step: index == long token price with an occasional spread
+                pub fn random_prices(r: &mut Rng, px: &mut u64) -> Prices<$U> {
+                    if r.chance(1, 4) { *px = (*px as i64 + r.below(21) as i64 - 10).max(2) as u64; }
+                    let spread = r.below(3);
+                    prices((*px, *px + spread), (*px, *px + spread), (1, 1))
+                }
+
+                /// increase a random (or new) position; returns Some(ok?) if an attempt was made
+                pub fn random_increase(&mut self, r: &mut Rng, pr: Prices<$U>, px: u64) -> (usize, bool) {
+                    let idx = if self.ps.is_empty() || r.chance(1, 2) { self.open(r.chance(1, 2), r.chance(1, 2)) } else { r.below(self.ps.len() as u64) as usize };
+                    let col_long = self.ps[idx].is_collateral_token_long;
+                    let size = (*r.pick(&[0u64, 1_000_000_000, 20_000_000_000, 500_000_000_000, 5_000_000_000_000]) + r.below(1_000_000_000)) as $U * SCALE;
+                    let cval = (size / SCALE) as u64 / (1 + r.below(30)) + r.below(2_000_000_000);
+                    let c = (if col_long { cval / px.max(1) } else { cval }) as $U;
+                    let ok = self.increase(idx, pr, c, size).is_ok();
+                    (idx, ok)
+                }
+
+                /// decrease a random position (partial / full / tiny remainder / capped / withdraw-only)
+                pub fn random_decrease(&mut self, r: &mut Rng, pr: Prices<$U>) -> Option<gmsol_model::Result<Box<DecreasePositionReport<$U, $I>>>> {
+                    if self.ps.is_empty() { return None; }
+                    let idx = r.below(self.ps.len() as u64) as usize;
+                    let (size, coll) = (self.ps[idx].size_in_usd, self.ps[idx].collateral_token_amount);
+                    let delta = match r.below(7) { 0 => size, 1 => 0, 2 => size - (r.below(2) as $U).min(size), 3 => (r.below(1_000_000) as $U).min(size), 4 => size / 2, 5 => size.saturating_add(r.below(5) as $U), _ => size / 1000 * r.below(1000) as $U };
+                    let w = match r.below(3) { 0 => 0, 1 => coll / 2, _ => coll };
+                    let flags = DecreasePositionFlags { is_insolvent_close_allowed: r.chance(1, 4), is_liquidation_order: false, is_cap_size_delta_usd_allowed: r.chance(1, 2) };
+                    Some(self.decrease(idx, pr, delta, w, flags))
+                }
+
                 /// drop positions that are empty
                 pub fn sweep(&mut self) {
                     self.ps.retain(|p| !(p.size_in_usd == 0 && p.size_in_tokens == 0 && p.collateral_token_amount == 0));
